@@ -21,7 +21,8 @@ RULE = ("scope skeletons: D nested procedures over names a b c (also defined glo
         "placed before or after the creation of the next-level closure; the closure is invoked inside its creator, after "
         "the creator returned, repeatedly (two activations sharing the creator's), or created twice in a loop that also "
         "binds a loop variable each closure reads; every read is logged with display, a set! conses a level tag onto the "
-        "old value so that mutation order is visible.  Enumerated EXHAUSTIVELY for the reduced skeletons (every binding "
+        "old value so that mutation order is visible (a third of the skeletons use bare assignments (set! x 'wL) instead, with no read in the assigning "
+        "procedure; the closure slot alternates between a parameter and an internal definition).  Enumerated EXHAUSTIVELY for the reduced skeletons (every binding "
         "is used) within the caps (actions, bindings): quick D=1 (3,3), D=2 (2,2) complete, D=3 and D=4 (2,2) by a fixed "
         "stride; thorough D=1 (3,3), D=2 (3,3), D=3 (2,2), D=4 (2,2) complete; plus random skeletons up to 5 levels with "
         "per-level invocation patterns and unused bindings, and a stream whose reads go through a quasiquote template "
@@ -84,7 +85,8 @@ def generate(rng, tier):
         if tier == "quick" and i % QUICK_STRIDE[D] != 0:
             continue
         # the closure slot alternates between a parameter and an internal definition (thunks)
-        sessions.append(G.sk_program(D, pat, cols, kstyle="param" if (i // 4) % 2 == 0 else "idef"))
+        sessions.append(G.sk_program(D, pat, cols, kstyle="param" if (i // 4) % 2 == 0 else "idef",
+                                     pure_set=(i // 8) % 3 == 2))
         flags.append(G.sk_nontrivial(D, cols))
         counts[D] = counts.get(D, 0) + 1
         dist.hit("pattern:" + pat)
@@ -94,7 +96,7 @@ def generate(rng, tier):
     nrand = 2500 if tier == "quick" else 25000
     for _ in range(nrand):
         D, pats, cols = G.c02_random(rng, dist)
-        sessions.append(G.sk_program(D, None, cols, pats, kstyle=rng.choice(["param", "idef"])))
+        sessions.append(G.sk_program(D, None, cols, pats, kstyle=rng.choice(["param", "idef"]), pure_set=rng.random() < 0.3))
         flags.append(G.sk_nontrivial(D, cols))
     nqq = 600 if tier == "quick" else 4000
     for _ in range(nqq):
